@@ -201,4 +201,61 @@ theorem published_is_pairing (g : Geo P D) (std : Bool) (hist : List (Nat × DF)
       g.outOfRange (g.rxDist p) = false :=
   (allInv_run g std hist [] (fun _ _ h => by cases h) k pl hg).2 p hp
 
+/-! ### the receiver may move between calls
+
+`action` takes the receiver position with every call (radar refreshes it from gpsd), so the geometry `g` of one call need not be the one
+of the calls before. Nothing is assumed about the record here — not the invariant, which speaks of one receiver. -/
+
+/-- **the distance is measured from the receiver of *this* call**: whatever happened before, when a position report is processed under
+geometry `g` with both slots then filled and the record is not cleared, the reported distance is the distance from `g`'s receiver to the
+pairing of the two stored reports — also when the report is the very one already stored and only the receiver has moved (the "nothing new"
+shortcut compares the distance too; seed C13_f dropped that comparison). `==` on distances is assumed to be equality (no NaN distance is
+ever stored: `outOfRange` rejects it). -/
+theorem distance_is_from_this_call (g : Geo P D) (std : Bool) (now : Nat) (st : Plane P D) (a e o : Alt)
+    (he : (store st.coords a).even = some e) (ho : (store st.coords a).odd = some o)
+    (hdeq : ∀ x y, g.deq x y = true → x = y)
+    (hpub : (updatePosition g std now st a).coords.pos.isSome = true) :
+    ∃ q, g.getPos e o = some q ∧ (updatePosition g std now st a).coords.kd = some (g.rxDist q) := by
+  unfold updatePosition at hpub ⊢
+  have hst : (if a.f = 0 then { st.coords with even := some a } else { st.coords with odd := some a } : Coor P D) = store st.coords a := rfl
+  simp only [hst] at hpub ⊢
+  rw [update_both_slots g std now _ e o he ho] at hpub ⊢
+  cases hp : g.getPos e o with
+  | none => rw [hp] at hpub; simp at hpub
+  | some q =>
+    rw [hp] at hpub
+    simp only [] at hpub ⊢
+    by_cases hpl : plausible g (store st.coords a).pos q = true
+    · rw [if_pos hpl] at hpub ⊢
+      simp only [] at hpub ⊢
+      refine ⟨q, rfl, ?_⟩
+      cases hsame : Coor.same g st.coords ⟨(store st.coords a).even, (store st.coords a).odd, some q,
+          (if std = true then some now else (store st.coords a).lastTime), some (g.rxDist q)⟩ with
+      | false => simp only [Bool.false_eq_true, if_false]
+      | true =>
+        -- "same coords": the stored distance is `==` to the recomputed one
+        simp only [if_true]
+        unfold Coor.same at hsame
+        simp only [Bool.and_eq_true] at hsame
+        have hk := hsame.2
+        cases hkd : st.coords.kd with
+        | none => rw [hkd] at hk; simp [optEq] at hk
+        | some d =>
+          rw [hkd] at hk
+          simp only [optEq] at hk
+          rw [hdeq d _ hk]
+    · rw [if_neg hpl] at hpub
+      simp at hpub
+
+/-- non-vacuity of `distance_is_from_this_call`, and the moved-receiver case itself, on a toy geometry (positions and distances are numbers,
+the receiver stands at `r`): the same odd report again after the receiver moved from 0 to 5 — the distance follows the receiver -/
+def toyGeo (r : Nat) : Geo Nat Nat :=
+  { getPos := fun e o => some (e.lat + o.lat), rxDist := fun p => if p ≥ r then p - r else r - p, dist := fun p q => if p ≥ q then p - q else q - p,
+    outOfRange := fun d => decide (d > 100), jump := fun d => decide (d > 10), peq := fun a b => a == b, deq := fun a b => a == b }
+example :
+    let e : Alt := ⟨11, 0, 0, none, 0, 0, 20, 0⟩; let o : Alt := ⟨11, 0, 0, none, 0, 1, 22, 0⟩
+    let s1 := updatePosition (toyGeo 0) true 0 (updatePosition (toyGeo 0) true 0 ({} : Plane Nat Nat) e) o
+    let s2 := updatePosition (toyGeo 5) true 0 s1 o
+    s1.coords.pos = some 42 ∧ s1.coords.kd = some 42 ∧ s2.coords.pos = some 42 ∧ s2.coords.kd = some 37 := by decide
+
 end Adsb.C13
